@@ -115,10 +115,8 @@ Definition c07_cleaner_exclusive_full : Prop := forall (ps : list (list pop * op
   cfd (snd c t) <> None -> cfd (snd c u) <> None -> crashed (snd c t) = false -> crashed (snd c u) = false -> t = u.
 Theorem c07_cleaner_exclusive_refuted : ~ c07_cleaner_exclusive_full.
 Proof.
-  intros H. specialize (H n4_inst (seq_sched 3) 1%nat 2%nat).
-  destruct n4_two_owners as [_ [H1 [H2 H3]]].
-  assert (H4 : crashed (snd (fst n4_run) 2%nat) = false) by (vm_compute; reflexivity).
-  specialize (H H1 H2 H3 H4). discriminate.
+  intros H. specialize (H n4_inst (seq_sched 3) 1%nat 2%nat). cbv zeta in H.
+  assert (E : 1%nat = 2%nat); [apply H; vm_compute; congruence | discriminate E].
 Qed.
 Print Assumptions c07_cleaner_exclusive_refuted.
 (* sequential part that does hold: a second cleaner that comes while the first one holds is refused *)
